@@ -142,3 +142,24 @@ pub fn range_matches(base: &[u8], prefix_len: u8, addr: &[u8]) -> bool {
     // address"; a claim with prefix_len > bits contains no address
     common >= prefix_len as usize
 }
+
+
+/// A sealed datagram as an outsider can fabricate it when it can guess a key: envelope (key id, 7 counter
+/// bytes), ciphertext and tag for message type + payload under `key_byte` repeated, for the given cipher
+/// (0 aes128, 1 aes256, 2 chacha20), key id and nonce half.
+pub fn forge_sealed(cipher: usize, key_byte: u8, key_id: u8, half: u8, counter: u64, msg_type: u8, payload: &[u8]) -> Vec<u8> {
+    use ring::aead::{Aad, LessSafeKey, Nonce, UnboundKey, AES_128_GCM, AES_256_GCM, CHACHA20_POLY1305};
+    let algo = [&AES_128_GCM, &AES_256_GCM, &CHACHA20_POLY1305][cipher % 3];
+    let key = LessSafeKey::new(UnboundKey::new(algo, &vec![key_byte; algo.key_len()]).unwrap());
+    let mut nonce = [0u8; 12];
+    nonce[0] = half;
+    nonce[5..12].copy_from_slice(&counter.to_be_bytes()[1..8]);
+    let mut data = vec![msg_type];
+    data.extend_from_slice(payload);
+    let tag = key.seal_in_place_separate_tag(Nonce::assume_unique_for_key(nonce), Aad::empty(), &mut data).unwrap();
+    let mut out = vec![key_id];
+    out.extend_from_slice(&nonce[5..12]);
+    out.extend_from_slice(&data);
+    out.extend_from_slice(tag.as_ref());
+    out
+}
